@@ -17,53 +17,69 @@ package vm
 //@ ghost opAt(b, o) = int(b[o])*256 + int(b[o+1])
 
 //@ func opSplit
-//@   ensures[C15] @complete result2 == nil ==> len(b) >= 2 && opAt(b, 0) <= _MAX
-//@   ensures[C14,C15] @value result2 == nil ==> int(result0) == opAt(b, 0) && result1 == b[2:]
-//@   ensures[C14] @accepts len(b) >= 2 && opAt(b, 0) <= _MAX ==> result2 == nil
+//@   serves C14, C15
+//@   ensures @backing result1 == nil || sameBacking(result1, b)
+//@   ensures @complete result2 == nil ==> len(b) >= 2 && opAt(b, 0) <= _MAX
+//@   ensures @value result2 == nil ==> int(result0) == opAt(b, 0) && result1 == b[2:]
+//@   ensures @accepts len(b) >= 2 && opAt(b, 0) <= _MAX ==> result2 == nil
 
 //@ func instructionSplit
-//@   ensures[C15] @complete result2 == nil ==> okStr(b, 0)
-//@   ensures[C14,C15] @value result2 == nil ==> result0 == strAt(b, 0) && result1 == b[afterStr(b, 0):]
-//@   ensures[C14] @accepts okStr(b, 0) ==> result2 == nil
+//@   serves C14, C15
+//@   ensures @backing result1 == nil || sameBacking(result1, b)
+//@   ensures @complete result2 == nil ==> okStr(b, 0)
+//@   ensures @value result2 == nil ==> result0 == strAt(b, 0) && result1 == b[afterStr(b, 0):]
+//@   ensures @accepts okStr(b, 0) ==> result2 == nil
 
 //@ func intSplit
-//@   ensures[C15] @complete result2 == nil ==> okInt(b, 0)
-//@   ensures[C14,C15] @value result2 == nil ==> int(result0) == intAt(b, 0) && result1 == b[afterInt(b, 0):]
-//@   ensures[C14] @accepts okInt(b, 0) ==> result2 == nil
+//@   serves C14, C15
+//@   ensures @backing result1 == nil || sameBacking(result1, b)
+//@   ensures @complete result2 == nil ==> okInt(b, 0)
+//@   ensures @value result2 == nil ==> int(result0) == intAt(b, 0) && result1 == b[afterInt(b, 0):]
+//@   ensures @accepts okInt(b, 0) ==> result2 == nil
 //@   loop 1 modifies r[*]
 //@   loop 1 invariant 0 <= int(i) && int(i) <= 4 && c == max(0, int(i) - int(ll)) && len(r) == 4
 //@     && forall(j, 0, 4, int(r[j]) == ite(j < int(i) && j >= int(ll), int(b[j - int(ll)]), 0))
 
 //@ func parseSym
-//@   ensures[C15] @complete result2 == nil ==> okStr(b, 0)
-//@   ensures[C14,C15] @value result2 == nil ==> result0 == strAt(b, 0) && result1 == b[afterStr(b, 0):]
-//@   ensures[C14] @accepts okStr(b, 0) ==> result2 == nil
+//@   serves C14, C15
+//@   ensures @backing result1 == nil || sameBacking(result1, b)
+//@   ensures @complete result2 == nil ==> okStr(b, 0)
+//@   ensures @value result2 == nil ==> result0 == strAt(b, 0) && result1 == b[afterStr(b, 0):]
+//@   ensures @accepts okStr(b, 0) ==> result2 == nil
 
 //@ func parseTwoSym
-//@   ensures[C15] @complete result3 == nil ==> okStr(b, 0) && okStr(b, afterStr(b, 0))
-//@   ensures[C14,C15] @value result3 == nil ==> result0 == strAt(b, 0) && result1 == strAt(b, afterStr(b, 0))
+//@   serves C14, C15
+//@   ensures @backing result2 == nil || sameBacking(result2, b)
+//@   ensures @complete result3 == nil ==> okStr(b, 0) && okStr(b, afterStr(b, 0))
+//@   ensures @value result3 == nil ==> result0 == strAt(b, 0) && result1 == strAt(b, afterStr(b, 0))
 //@     && result2 == b[afterStr(b, afterStr(b, 0)):]
-//@   ensures[C14] @accepts okStr(b, 0) && okStr(b, afterStr(b, 0)) ==> result3 == nil
+//@   ensures @accepts okStr(b, 0) && okStr(b, afterStr(b, 0)) ==> result3 == nil
 
 //@ func parseSymLen
-//@   ensures[C15] @complete result3 == nil ==> okStr(b, 0) && okInt(b, afterStr(b, 0))
-//@   ensures[C14,C15] @value result3 == nil ==> result0 == strAt(b, 0) && int(result1) == intAt(b, afterStr(b, 0))
+//@   serves C14, C15
+//@   ensures @backing result2 == nil || sameBacking(result2, b)
+//@   ensures @complete result3 == nil ==> okStr(b, 0) && okInt(b, afterStr(b, 0))
+//@   ensures @value result3 == nil ==> result0 == strAt(b, 0) && int(result1) == intAt(b, afterStr(b, 0))
 //@     && result2 == b[afterInt(b, afterStr(b, 0)):]
-//@   ensures[C14] @accepts okStr(b, 0) && okInt(b, afterStr(b, 0)) ==> result3 == nil
+//@   ensures @accepts okStr(b, 0) && okInt(b, afterStr(b, 0)) ==> result3 == nil
 
 //@ func parseSymSig
-//@   ensures[C15] @complete result4 == nil ==> okStr(b, 0) && okInt(b, afterStr(b, 0)) && afterInt(b, afterStr(b, 0)) < len(b)
-//@   ensures[C14,C15] @value result4 == nil ==> result0 == strAt(b, 0) && int(result1) == intAt(b, afterStr(b, 0))
+//@   serves C14, C15
+//@   ensures @backing result3 == nil || sameBacking(result3, b)
+//@   ensures @complete result4 == nil ==> okStr(b, 0) && okInt(b, afterStr(b, 0)) && afterInt(b, afterStr(b, 0)) < len(b)
+//@   ensures @value result4 == nil ==> result0 == strAt(b, 0) && int(result1) == intAt(b, afterStr(b, 0))
 //@     && result2 == (int(b[afterInt(b, afterStr(b, 0))]) > 0)
 //@     && result3 == b[afterInt(b, afterStr(b, 0)) + 1:]
-//@   ensures[C14] @accepts okStr(b, 0) && okInt(b, afterStr(b, 0)) && afterInt(b, afterStr(b, 0)) < len(b) ==> result4 == nil
+//@   ensures @accepts okStr(b, 0) && okInt(b, afterStr(b, 0)) && afterInt(b, afterStr(b, 0)) < len(b) ==> result4 == nil
 
 //@ func parseSig
-//@   ensures[C15] @complete result3 == nil ==> okInt(b, 0) && afterInt(b, 0) < len(b)
-//@   ensures[C14,C15] @value result3 == nil ==> int(result0) == intAt(b, 0)
+//@   serves C14, C15
+//@   ensures @backing result2 == nil || sameBacking(result2, b)
+//@   ensures @complete result3 == nil ==> okInt(b, 0) && afterInt(b, 0) < len(b)
+//@   ensures @value result3 == nil ==> int(result0) == intAt(b, 0)
 //@     && result1 == (int(b[afterInt(b, 0)]) > 0)
 //@     && result2 == b[afterInt(b, 0) + 1:]
-//@   ensures[C14] @accepts okInt(b, 0) && afterInt(b, 0) < len(b) ==> result3 == nil
+//@   ensures @accepts okInt(b, 0) && afterInt(b, 0) < len(b) ==> result3 == nil
 
 // Encoder. The statement of C14 covers symbols of 1..255 bytes; the callers in
 // this module pass at most two string arguments.
@@ -178,6 +194,7 @@ package vm
 //@   ensures @accepted !old(moveRefused(st, tgt(target))) && old(depth(st)) >= 1 ==> result2 == nil
 //@   ensures @first tgt(target) == "<" && old(depth(st)) > 0 && old(st.SizeIdx) == 0 ==> result2 == state.IndexError
 //@   ensures @failed result2 != nil ==> state.samePosition(st)
+//@   ensures @errkind result2 != nil && errIs(result2, state.IndexError) ==> tgt(target) == "<" && old(depth(st)) > 0 && old(st.SizeIdx) == 0
 //@   ensures @where result2 == nil && depth(st) > 0 && (old(depth(st)) >= 1 || isNode(tgt(target))) ==> result0 == state.last(st)
 //@   ensures[C05,C08] @lockstep result2 == nil && old(levels(ca)) == old(depth(st)) + 1 && old(depth(st)) >= 1 ==> levels(ca) == depth(st) + 1
 //@   ensures[C05,C08] @lockfail result2 != nil ==> levels(ca) == old(levels(ca))
@@ -187,6 +204,7 @@ package vm
 // Reset) and the optional Sizer shared with the Page.
 //@ pred vmOk(vm) = vm != nil && vm.st != nil && state.flagsOk(vm.st) && vm.pg != nil && vm.mn != nil && memOk(vm.ca)
 //@   && vm.rs != nil && vm.pg.menu == vm.mn && (vm.pg.sizer == nil || vm.pg.sizer == vm.sizer) && vm.pg.cache == vm.ca
+//@   && (vm.st.input == nil || !sameBacking(vm.st.input, vm.st.Flags))
 //@ pred unmapped(vm) = all[string](k, !in(k, vm.pg.cacheMap)) && vm.pg.sink == nil && vm.pg.extra == ""
 //@ pred freshMenu(vm) = len(vm.mn.menu) == 0 && !vm.mn.sink && vm.mn.pageCount == 0 && vm.mn.keep
 
@@ -199,3 +217,105 @@ package vm
 //@   ensures[C05,C07] @unmapped unmapped(vmi)
 //@   ensures @sizer (vmi.sizer != nil ==> vmi.pg.sizer == vmi.sizer) && (vmi.sizer == nil ==> vmi.pg.sizer == old(vmi.pg.sizer))
 //@   ensures[C02,C07] @cursors vmi.pg.sizer != nil ==> len(vmi.pg.sizer.crsrs) == 0
+
+//@ modset navMods(st, ca) = st.ExecPath, st.ExecPath[*], st.SizeIdx, st.Moves, st.lastMove, cac(ca).Cache, cac(ca).Cache[*], cac(ca).CacheUseSize, cac(ca).Sizes[*]
+//@ modset resetMods(vm) = vm.mn, vm.pg.sink, vm.pg.extra, vm.pg.cacheMap, vm.pg.menu, vm.pg.sizer, vm.pg.menu.menu, vm.pg.menu.sink, vm.pg.menu.canNext, vm.pg.menu.canPrevious, vm.pg.sizer.crsrs, vm.sizer.crsrs
+//@ pred fl(vm, i) = state.flag(vm.st, i)
+//@ pred flagsKept(vm) = state.sameFlags(vm.st) && len(vm.st.Flags) == old(len(vm.st.Flags)) && vm.st.BitSize == old(vm.st.BitSize)
+//@ pred posKept(vm) = state.samePosition(vm.st)
+// the pending bytecode never shares memory with the flag bytes
+//@ pred codeSep(vm, b) = !sameBacking(b, vm.st.Flags) || b == nil
+
+// MOVE: exactly one applyTarget with the instruction's own symbol.
+//@ func (*Vm).runMove
+//@   serves C04, C05
+//@   requires vmOk(vm)
+//@   requires[C05,C08] memWf(vm.ca)
+//@   requires okStr(b, 0) ==> canDescend(vm.st, strAt(b, 0))
+//@   requires codeSep(vm, b)
+//@   modifies navMods(vm.st, vm.ca), resetMods(vm), count(codegets), b[*]
+//@   ensures @vm vmOk(vm)
+//@   ensures @flags flagsKept(vm)
+//@   ensures @sep codeSep(vm, result0)
+//@   ensures[C05,C08] @memwf memWf(vm.ca)
+//@   ensures @decode !okStr(b, 0) ==> result1 != nil && posKept(vm)
+//@   ensures @moved result1 == nil && (old(depth(vm.st)) >= 1 || isNode(strAt(b, 0))) ==> moveTable(vm.st, strAt(b, 0))
+//@   ensures @failed result1 != nil && (old(depth(vm.st)) >= 1 || isNode(strAt(b, 0))) ==> posKept(vm) || moveTable(vm.st, strAt(b, 0))
+//@   ensures[C05,C07] @unmapped result1 == nil ==> unmapped(vm)
+//@   ensures[C05,C08] @lockstep old(levels(vm.ca)) == old(depth(vm.st)) + 1 && old(depth(vm.st)) >= 1 ==> levels(vm.ca) == depth(vm.st) + 1
+
+// CATCH: moves exactly when the flag's state equals the mode.
+// argument layout: symbol, flag number, mode byte
+//@ pred okCatch(b) = okStr(b, 0) && okInt(b, afterStr(b, 0)) && afterInt(b, afterStr(b, 0)) < len(b)
+//@ ghost catchSig(b) = intAt(b, afterStr(b, 0))
+//@ pred catchMode(b) = int(b[afterInt(b, afterStr(b, 0))]) > 0
+//@ ghost catchRest(b) = b[afterInt(b, afterStr(b, 0)) + 1:]
+//@ func (*Vm).runCatch
+//@   serves C06, C04, C05
+//@   requires vmOk(vm) && codeSep(vm, b)
+//@   requires[C05,C08] memWf(vm.ca)
+//@   requires okCatch(b) ==> catchSig(b) < int(vm.st.BitSize) && canDescend(vm.st, strAt(b, 0))
+//@   modifies navMods(vm.st, vm.ca), count(codegets)
+//@   ensures @vm vmOk(vm)
+//@   ensures @flags flagsKept(vm)
+//@   ensures @sep codeSep(vm, result0)
+//@   ensures[C05,C08] @memwf memWf(vm.ca)
+//@   ensures @decode !okCatch(b) ==> result1 != nil && posKept(vm) && count(codegets) == old(count(codegets))
+//@   ensures @nomatch okCatch(b) && old(fl(vm, catchSig(b))) != catchMode(b) ==> result1 == nil && posKept(vm) && result0 == catchRest(b)
+//@     && count(codegets) == old(count(codegets)) && levels(vm.ca) == old(levels(vm.ca))
+//@   ensures @match okCatch(b) && old(fl(vm, catchSig(b))) == catchMode(b) && result1 == nil && (old(depth(vm.st)) >= 1 || isNode(strAt(b, 0))) ==> moveTable(vm.st, strAt(b, 0))
+//@   ensures @refused okCatch(b) && old(fl(vm, catchSig(b))) == catchMode(b) && old(moveRefused(vm.st, strAt(b, 0))) ==> result1 != nil && posKept(vm)
+//@   ensures[C05,C08] @lockstep old(levels(vm.ca)) == old(depth(vm.st)) + 1 && old(depth(vm.st)) >= 1 ==> levels(vm.ca) == depth(vm.st) + 1
+
+// CROAK: under the same test, abandons the pending bytecode.
+//@ pred okCroak(b) = okInt(b, 0) && afterInt(b, 0) < len(b)
+//@ func (*Vm).runCroak
+//@   serves C06
+//@   requires vmOk(vm) && codeSep(vm, b)
+//@   requires[C05,C08] memWf(vm.ca)
+//@   requires okCroak(b) ==> intAt(b, 0) < int(vm.st.BitSize)
+//@   modifies resetMods(vm), cac(vm.ca).Cache, cac(vm.ca).CacheUseSize
+//@   ensures @vm vmOk(vm)
+//@   ensures @flags flagsKept(vm) && posKept(vm)
+//@   ensures @sep codeSep(vm, result0)
+//@   ensures[C05,C08] @memwf memWf(vm.ca)
+//@   ensures @decode !okCroak(b) ==> result1 != nil
+//@   ensures @nomatch okCroak(b) && old(fl(vm, intAt(b, 0))) != (int(b[afterInt(b, 0)]) > 0) ==> result1 == nil && result0 == b[afterInt(b, 0) + 1:] && levels(vm.ca) == old(levels(vm.ca))
+//@   ensures @match okCroak(b) && old(fl(vm, intAt(b, 0))) == (int(b[afterInt(b, 0)]) > 0) ==> result1 == nil && len(result0) == 0 && levels(vm.ca) == 1
+
+//@ func (*Vm).runHalt
+//@   serves C03
+//@   requires vmOk(vm)
+//@   modifies vm.st.Flags[*]
+//@   ensures @halt result1 == nil && result0 == b && fl(vm, state.FLAG_WAIT) && state.otherFlagsSame(vm.st, state.FLAG_WAIT) && vmOk(vm)
+
+// INCMP <node> <selector>: the first matching selector since the last HALT
+// decides the move; later INCMPs are ignored until execution resumes.
+//@ pred okInCmp(b) = okStr(b, 0) && okStr(b, afterStr(b, 0))
+//@ ghost icNode(b) = strAt(b, 0)
+//@ ghost icSel(b) = strAt(b, afterStr(b, 0))
+//@ ghost icRest(b) = b[afterStr(b, afterStr(b, 0)):]
+//@ ghost inputStr(vm) = str(vm.st.input)
+//@ pred matches(vm, b) = icSel(b) == inputStr(vm) || icSel(b) == "*"
+//@ func (*Vm).runInCmp
+//@   serves C03, C04, C05
+//@   requires vmOk(vm) && codeSep(vm, b)
+//@   requires[C05,C08] memWf(vm.ca)
+//@   requires okInCmp(b) ==> canDescend(vm.st, icNode(b))
+//@   modifies vm.st.Flags[*], navMods(vm.st, vm.ca), resetMods(vm), count(codegets), b[*]
+//@   ensures @vm vmOk(vm)
+//@   ensures @sep codeSep(vm, result0)
+//@   ensures[C05,C08] @memwf memWf(vm.ca)
+//@   ensures @decode old(!okInCmp(b)) ==> result1 != nil && posKept(vm) && flagsKept(vm)
+//@   ensures[C03] @once old(okInCmp(b) && fl(vm, state.FLAG_INMATCH) && vm.st.input != nil) ==> posKept(vm) && result1 == nil && result0 == old(icRest(b))
+//@     && count(codegets) == old(count(codegets)) && levels(vm.ca) == old(levels(vm.ca))
+//@   ensures[C03] @nomatch old(okInCmp(b) && !fl(vm, state.FLAG_INMATCH) && vm.st.input != nil && !matches(vm, b)) ==> posKept(vm) && result1 == nil
+//@     && result0 == old(icRest(b)) && fl(vm, state.FLAG_READIN) && !fl(vm, state.FLAG_INMATCH) && count(codegets) == old(count(codegets))
+//@   ensures[C03] @match old(okInCmp(b) && !fl(vm, state.FLAG_INMATCH) && vm.st.input != nil && matches(vm, b)) && result1 == nil
+//@     && old(depth(vm.st) >= 1 || isNode(icNode(b))) ==> fl(vm, state.FLAG_INMATCH)
+//@     && ((moveTable(vm.st, old(icNode(b))) && !fl(vm, state.FLAG_READIN)) || (old(icNode(b)) == "<" && posKept(vm) && fl(vm, state.FLAG_READIN) && result0 == old(icRest(b))))
+//@   ensures[C03] @first old(okInCmp(b) && !fl(vm, state.FLAG_INMATCH) && vm.st.input != nil && matches(vm, b) && icNode(b) == "<"
+//@     && depth(vm.st) > 0 && vm.st.SizeIdx == 0) ==> result1 == nil && posKept(vm) && fl(vm, state.FLAG_READIN) && fl(vm, state.FLAG_INMATCH)
+//@   ensures[C03] @otherflags state.clientFlagsSame(vm.st) && forall(n, 2, 8, bit(vm.st.Flags[0], n) == old(bit(vm.st.Flags[0], n)))
+//@   ensures[C05,C07] @unmapped result1 == nil && !posKept(vm) ==> unmapped(vm)
+//@   ensures[C05,C08] @lockstep old(levels(vm.ca)) == old(depth(vm.st)) + 1 && old(depth(vm.st)) >= 1 ==> levels(vm.ca) == depth(vm.st) + 1
